@@ -41,7 +41,19 @@ func re(s string) func(string) bool {
 
 // callsTo returns call sites in f (and its closures) whose callee key has one of the suffixes.
 func callsTo(f *ssa.Function, closures bool, sufs ...string) []engine.CallSite {
-	return engine.CallsIn(f, closures, engine.HasSuffix(sufs...))
+	out := engine.CallsIn(f, closures, engine.HasSuffix(sufs...))
+	// calls that were moved into a helper extracted from f are still f's calls
+	for _, g := range engine.InlinedUnder(f) {
+		out = append(out, engine.CallsIn(g, closures, engine.HasSuffix(sufs...))...)
+	}
+	if closures {
+		for _, cl := range engine.Closures(f) {
+			for _, g := range engine.InlinedUnder(cl) {
+				out = append(out, engine.CallsIn(g, closures, engine.HasSuffix(sufs...))...)
+			}
+		}
+	}
+	return out
 }
 
 // isCallTo reports whether instruction in is a call whose key ends in one of sufs.
